@@ -33,6 +33,7 @@ before it (or free Verus text when outside an @extract block).
     @rule R17 NAME / payload             tail expression E -> `let NAME = E; <payload> NAME`
     @rule R14 NAME                       NAME.len() on a &str -> str_len(NAME) (assumed wrapper)
     @rule R12                            debug_assert_eq!(a, b) -> debug_assert!((a) == (b))
+    @rule R15                            assert!(c, "msg", ..) -> rt_assert(c)  (assumed wrapper: panics when c is false)
     @rule ascribe "let x" "T"            type ascription added to a let                [R11]
     @rule pubfields                      struct fields made pub                      [R0]
     @rule macro-inst MACRO $v=Value      instantiate a macro_rules body like the invocation MACRO!(Value, ..) does [R9]
@@ -276,6 +277,12 @@ def _unquote(arg):
         raise GenError("expected quoted string in %r" % arg)
     return m.group(1).replace('\\"', '"'), m.group(2).strip()
 
+class FnDegrade(Exception):
+    def __init__(self, label, reason):
+        Exception.__init__(self, reason)
+        self.label, self.reason = label, reason
+
+
 class Extractor:
     def __init__(self, unit):
         self.unit = unit
@@ -283,11 +290,29 @@ class Extractor:
         self.functions = []     # evidence: functions under contract
         self.dropped = []       # evidence: what extraction dropped
         self.assumed = []       # evidence: extracted functions whose body is left unverified
+        self.force_degrade = set()   # labels whose body annotations must not be applied (set by the runner after a structural error inside them)
+        self.degraded = []      # (label, reason): functions whose anchors are lost: contract kept (assumed), body NOT verified
 
     def count(self, rule, n=1):
         self.rule_counts[rule] = self.rule_counts.get(rule, 0) + n
 
     def expand(self, ex, dirs):
+        """One @extract block.  When the anchors of ONE function are lost (a loop, a statement prefix, a rule site no longer
+        exists in its body) only that function is degraded: its signature and contract are kept, its body is replaced by
+        `unimplemented!()` under external_body, and it is reported as not verified.  The other functions stay verified."""
+        local = set()
+        while True:
+            snap = (dict(self.rule_counts), list(self.functions), list(self.dropped), list(self.assumed))
+            try:
+                return self._expand(ex, dirs, local | self.force_degrade)
+            except FnDegrade as e:
+                self.rule_counts, self.functions, self.dropped, self.assumed = snap[0], snap[1], snap[2], snap[3]
+                if e.label in local or os.environ.get("VERIF_NO_DEGRADE") == "1":
+                    raise GenError(e.reason)
+                local.add(e.label)
+                self.degraded.append((e.label, e.reason))
+
+    def _expand(self, ex, dirs, degrade):
         """Return list of Pieces for one @extract block."""
         parts = [p.strip() for p in ex.arg.split(" :: ")]     # selectors are separated by ` :: ` (with blanks); `fmt::Display` is not split
         relfile, sels = parts[0], parts[1:]
@@ -353,6 +378,13 @@ class Extractor:
         cur = None          # FnInfo
         cur_label = base_label
         cur_exclude = []
+        def apply_degrade(it, label):
+            if label in degrade and it.body_open is not None:
+                add(it.start, it.start, "#[verifier::external_body] ", ("ins", label, "assume-body", 0))
+                add(it.body_open, it.body_close + 1, "{ unimplemented!() }", ("rule", "degraded-body", label, 0))
+                self.count("degraded-body")
+                if not any(l == label for l, _ in self.degraded):
+                    self.degraded.append((label, "structural error inside the annotated body"))
         def set_fn(it, label):
             nonlocal cur, cur_label, cur_exclude
             cur = FnInfo(src, it)
@@ -362,9 +394,10 @@ class Extractor:
                 for sub in rl.items_in(src, it.body_open + 1, it.body_close):
                     if sub.kind in ("fn", "enum", "struct", "const", "impl"):
                         cur_exclude.append((sub.attr_start, sub.end))
-            self.functions.append({"label": label, "file": relfile,
+            self.functions.append({"label": label, "file": relfile, "name": it.name,
                                    "byte_range": [it.start, it.end],
                                    "sha256": hashlib.sha256(src[it.start:it.end].encode()).hexdigest()[:16]})
+            apply_degrade(it, label)
         if item.kind == "fn":
             set_fn(item, base_label)
 
@@ -394,106 +427,150 @@ class Extractor:
                         return idx, pos
             raise GenError("lost anchor: statement %r #%d of %s" % (prefix, k, cur_label))
 
-        loop_payload = {}   # ordstr -> text inserted before loop body (for rules that rebuild headers)
+        loop_payload_all = {}   # (fn, ordstr) -> text inserted before loop body (for rules that rebuild headers)
+        fnkey = ""
         for d in dirs:
+            if d.name == "fn":
+                fnkey = d.arg.strip()
             if d.name == "loop":
-                loop_payload.setdefault(d.arg.strip(), []).append(d)
+                loop_payload_all.setdefault((fnkey, d.arg.strip()), []).append(d)
             if d.name == "loopinit":
-                loop_payload.setdefault("init:" + d.arg.strip(), []).append(d)
+                loop_payload_all.setdefault((fnkey, "init:" + d.arg.strip()), []).append(d)
+        fnkey = ""
 
         handled_loops = set()
         for d in dirs:
             n = d.name
-            if n == "only":
+            if cur is not None and cur_label in degrade and n not in ("only", "label", "fn", "ret", "header", "implitems", "rule"):
+                continue    # degraded function: body annotations are not applied
+            if cur is not None and cur_label in degrade and n == "rule" and d.arg.split()[0] not in ("pub", "sub"):
                 continue
-            elif n == "label":
-                cur_label = d.arg
-                if self.functions:
-                    self.functions[-1]["label"] = d.arg
-            elif n == "fn":
-                key = ("fn", d.arg.strip())
-                if key not in members:
-                    raise GenError("lost anchor: fn %s in %s" % (d.arg, base_label))
-                set_fn(members[key], base_label + "::" + d.arg.strip())
-            elif n == "ret":
-                need_fn(d)
-                if cur.ret_start is None:
-                    raise GenError("lost anchor: %s has no return type" % cur_label)
-                add(cur.ret_start, cur.ret_start, "(" + d.arg.strip() + ": ", ("ins", cur_label, "ret"))
-                add(cur.ret_end, cur.ret_end, ")", ("ins", cur_label, "ret"))
-            elif n == "assume-body":
-                # the body is NOT verified (it depends on something outside the model, e.g. type inference
-                # returning Ok); its contract becomes an assumption listed in the evidence
-                need_fn(d)
-                add(cur.item.start, cur.item.start, "#[verifier::external_body] ", ("ins", cur_label, "assume-body", d.line))
-                self.assumed.append("%s: body not verified, contract assumed (%s)" % (cur_label, d.arg or "no reason given"))
-            elif n == "implitems":
-                if item.kind not in ("impl", "trait"):
-                    raise GenError("@implitems needs an impl item")
-                add(item.body_open + 1, item.body_open + 1, "\n" + d.text() + "\n", ("ins", base_label, "implitems", d.line))
-            elif n == "header":
-                need_fn(d)
-                add(cur.sig_end, cur.sig_end, "\n" + d.text() + "\n", ("ins", cur_label, "header", d.line))
-            elif n == "loop":
-                need_fn(d)
-                ordstr = d.arg.strip()
-                if ordstr in handled_loops:
+            try:
+                if n == "only":
                     continue
-                lp = find_loop(d, ordstr)
-                add(lp["open"], lp["open"], "\n" + d.text() + "\n", ("ins", cur_label, "loop " + ordstr, d.line))
-            elif n in ("beforeloop", "afterloop", "loopstart", "loopend"):
-                need_fn(d)
-                lp = find_loop(d, d.arg.strip())
-                pos = {"beforeloop": lp["kw_pos"], "afterloop": lp["close"] + 1,
-                       "loopstart": lp["open"] + 1, "loopend": lp["close"]}[n]
-                add(pos, pos, "\n" + d.text() + "\n", ("ins", cur_label, n + " " + d.arg.strip(), d.line))
-            elif n == "closurespec":
-                # @closurespec "stmt prefix": clauses for the closure `|..| [-> T] { .. }` in that statement, inserted before its body
-                need_fn(d)
-                idx, pos = find_stmt(d, d.arg)
-                toks = cur.toks
-                q = idx
-                while toks[q].text != "|" and toks[q].text != "||":
+                elif n == "label":
+                    cur_label = d.arg
+                    base_label = d.arg
+                    if item.kind == "fn" and self.functions:
+                        self.functions[-1]["label"] = d.arg
+                        apply_degrade(item, d.arg)
+                elif n == "fn":
+                    key = ("fn", d.arg.strip())
+                    if key not in members:
+                        raise GenError("lost anchor: fn %s in %s" % (d.arg, base_label))
+                    set_fn(members[key], base_label + "::" + d.arg.strip())
+                    fnkey = d.arg.strip()
+                    handled_loops = set()
+                elif n == "ret":
+                    need_fn(d)
+                    if cur.ret_start is None:
+                        raise GenError("lost anchor: %s has no return type" % cur_label)
+                    add(cur.ret_start, cur.ret_start, "(" + d.arg.strip() + ": ", ("ins", cur_label, "ret"))
+                    add(cur.ret_end, cur.ret_end, ")", ("ins", cur_label, "ret"))
+                elif n == "assume-body":
+                    # the body is NOT verified (it depends on something outside the model, e.g. type inference
+                    # returning Ok); its contract becomes an assumption listed in the evidence
+                    need_fn(d)
+                    add(cur.item.start, cur.item.start, "#[verifier::external_body] ", ("ins", cur_label, "assume-body", d.line))
+                    self.assumed.append("%s: body not verified, contract assumed (%s)" % (cur_label, d.arg or "no reason given"))
+                elif n == "implitems":
+                    if item.kind not in ("impl", "trait"):
+                        raise GenError("@implitems needs an impl item")
+                    add(item.body_open + 1, item.body_open + 1, "\n" + d.text() + "\n", ("ins", base_label, "implitems", d.line))
+                elif n == "header":
+                    need_fn(d)
+                    add(cur.sig_end, cur.sig_end, "\n" + d.text() + "\n", ("ins", cur_label, "header", d.line))
+                elif n == "loop":
+                    need_fn(d)
+                    ordstr = d.arg.strip()
+                    if ordstr in handled_loops:
+                        continue
+                    lp = find_loop(d, ordstr)
+                    add(lp["open"], lp["open"], "\n" + d.text() + "\n", ("ins", cur_label, "loop " + ordstr, d.line))
+                elif n in ("beforeloop", "afterloop", "loopstart", "loopend"):
+                    need_fn(d)
+                    la = d.arg.split()
+                    lp = find_loop(d, la[0])
+                    if n == "loopend":
+                        # ghost code at the end of the loop body is skipped by `continue`: the number of `continue`s of this loop
+                        # (not of nested loops) must be the one the contract was written for (`@loopend ORD continues K`, default 0)
+                        want = int(la[2]) if len(la) >= 3 and la[1] == "continues" else 0
+                        inner = [(l2["open_idx"], l2["close_idx"]) for l2 in cur.loops(src, cur_exclude)
+                                 if lp["open_idx"] < l2["kw_idx"] < lp["close_idx"]]
+                        have = 0
+                        for q in range(lp["open_idx"] + 1, lp["close_idx"]):
+                            tq = cur.toks[q]
+                            if tq.kind == "ident" and tq.text == "continue" and not any(a < q < b for a, b in inner):
+                                have += 1
+                        if have != want:
+                            raise GenError("lost anchor: loop %s of %s has %d `continue` (contract written for %d): ghost code at the end of the body would be skipped" % (la[0], cur_label, have, want))
+                    pos = {"beforeloop": lp["kw_pos"], "afterloop": lp["close"] + 1,
+                           "loopstart": lp["open"] + 1, "loopend": lp["close"]}[n]
+                    add(pos, pos, "\n" + d.text() + "\n", ("ins", cur_label, n + " " + la[0], d.line))
+                elif n == "closurespec":
+                    # @closurespec "stmt prefix": clauses for the closure `|..| [-> T] { .. }` in that statement, inserted before its body
+                    need_fn(d)
+                    idx, pos = find_stmt(d, d.arg)
+                    toks = cur.toks
+                    q = idx
+                    while toks[q].text != "|" and toks[q].text != "||":
+                        q += 1
+                    if toks[q].text == "|":
+                        q += 1
+                        while toks[q].text != "|":
+                            q = cur.br[q] + 1 if (toks[q].kind == "punct" and toks[q].text in ("(", "[")) else q + 1
                     q += 1
-                if toks[q].text == "|":
-                    q += 1
-                    while toks[q].text != "|":
+                    arrow = q if toks[q].text == "->" else None
+                    while toks[q].text != "{":
                         q = cur.br[q] + 1 if (toks[q].kind == "punct" and toks[q].text in ("(", "[")) else q + 1
-                q += 1
-                arrow = q if toks[q].text == "->" else None
-                while toks[q].text != "{":
-                    q = cur.br[q] + 1 if (toks[q].kind == "punct" and toks[q].text in ("(", "[")) else q + 1
-                mret = re.search(r"\bret\s+([A-Za-z_][A-Za-z0-9_]*)\s*$", d.arg)
-                if arrow is not None and mret:
-                    add(toks[arrow + 1].start, toks[arrow + 1].start, "(" + mret.group(1) + ": ", ("ins", cur_label, "closure ret"))
-                    add(toks[q - 1].end, toks[q - 1].end, ")", ("ins", cur_label, "closure ret"))
-                add(toks[q].start, toks[q].start, "\n" + d.text() + "\n", ("ins", cur_label, "closurespec " + d.arg, d.line))
-            elif n == "loopinit":
-                continue    # consumed by rule R1 (ghost code between the iterator binding and the loop)
-            elif n == "before":
-                need_fn(d)
-                idx, pos = find_stmt(d, d.arg)
-                add(pos, pos, d.text() + "\n", ("ins", cur_label, "before " + d.arg, d.line))
-            elif n == "after":
-                need_fn(d)
-                idx, pos = find_stmt(d, d.arg)
-                e = cur.stmt_end(idx)
-                epos = cur.toks[e].end
-                add(epos, epos, "\n" + d.text() + "\n", ("ins", cur_label, "after " + d.arg, d.line))
-            elif n == "bodystart":
-                need_fn(d)
-                add(cur.body_open + 1, cur.body_open + 1, "\n" + d.text() + "\n", ("ins", cur_label, "bodystart", d.line))
-            elif n == "atend":
-                need_fn(d)
-                add(cur.body_close, cur.body_close, d.text() + "\n", ("ins", cur_label, "atend", d.line))
-            elif n == "rule":
-                self._rule(d, src, item, cur, cur_label, cur_exclude, add, find_loop, loop_payload, handled_loops)
-            else:
-                raise GenError("%s:%d: unknown directive @%s" % (self.unit, d.line, n))
+                    mret = re.search(r"\bret\s+([A-Za-z_][A-Za-z0-9_]*)\s*$", d.arg)
+                    if arrow is not None and mret:
+                        add(toks[arrow + 1].start, toks[arrow + 1].start, "(" + mret.group(1) + ": ", ("ins", cur_label, "closure ret"))
+                        add(toks[q - 1].end, toks[q - 1].end, ")", ("ins", cur_label, "closure ret"))
+                    add(toks[q].start, toks[q].start, "\n" + d.text() + "\n", ("ins", cur_label, "closurespec " + d.arg, d.line))
+                elif n == "loopinit":
+                    continue    # consumed by rule R1 (ghost code between the iterator binding and the loop)
+                elif n == "before":
+                    need_fn(d)
+                    idx, pos = find_stmt(d, d.arg)
+                    add(pos, pos, d.text() + "\n", ("ins", cur_label, "before " + d.arg, d.line))
+                elif n == "after":
+                    need_fn(d)
+                    idx, pos = find_stmt(d, d.arg)
+                    e = cur.stmt_end(idx)
+                    epos = cur.toks[e].end
+                    add(epos, epos, "\n" + d.text() + "\n", ("ins", cur_label, "after " + d.arg, d.line))
+                elif n == "bodystart":
+                    need_fn(d)
+                    add(cur.body_open + 1, cur.body_open + 1, "\n" + d.text() + "\n", ("ins", cur_label, "bodystart", d.line))
+                elif n == "atend":
+                    need_fn(d)
+                    add(cur.body_close, cur.body_close, d.text() + "\n", ("ins", cur_label, "atend", d.line))
+                elif n == "rule":
+                    loop_payload = dict((k[1], v) for k, v in loop_payload_all.items() if k[0] == fnkey)
+                    self._rule(d, src, item, cur, cur_label, cur_exclude, add, find_loop, loop_payload, handled_loops)
+                else:
+                    raise GenError("%s:%d: unknown directive @%s" % (self.unit, d.line, n))
+            except GenError as e:
+                if n == "fn" or cur is None or item.kind not in ("impl", "fn", "trait"):
+                    raise
+                if cur_label in degrade:
+                    if n == "rule" and d.arg.split()[0] == "sub":
+                        continue    # a substitution inside the (replaced) body of a degraded function
+                    raise
+                raise FnDegrade(cur_label, str(e))
 
         # apply edits; edits inside a dropped / hoisted range are discarded with it
-        dels = [e for e in edits if e.tag[0] == "rule" and e.tag[1] in ("R0-drop-member", "R8-hoist")]
-        edits = [e for e in edits if e in dels or not any(dl.start <= e.start and e.end <= dl.end for dl in dels)]
+        dels = [e for e in edits if e.tag[0] == "rule" and e.tag[1] in ("R0-drop-member", "R8-hoist", "degraded-body")]
+        def swallowed(e, dl):
+            if dl is e or not (dl.start <= e.start and e.end <= dl.end):
+                return False
+            if e in dels and (dl.end - dl.start) <= (e.end - e.start):
+                return False
+            if dl.tag[1] == "degraded-body" and e.start == e.end == dl.start:
+                return False    # the contract header sits right before the replaced body
+            return True
+        edits = [e for e in edits if not any(swallowed(e, dl) for dl in dels)]
         edits.sort(key=lambda e: (e.start, 0 if e.start == e.end else 1, e.order))
         # insertion at same position as start of a replacement comes first
         pieces = []
@@ -608,6 +685,33 @@ class Extractor:
             add(it.start, it.start, "pub ", ("rule-ins", "R0-pub", cur_label, d.line))
             self.count("R0-pub")
             return
+        if rule == "R15":
+            # `assert!(cond, "message {x}", args..)`  =>  `rt_assert(cond)`: a run-time check that panics when cond is false
+            # (assumed wrapper: cond holds afterwards); the message arguments are dropped
+            toks = cur.toks
+            n = 0
+            for q in range(cur.body_open_idx, cur.body_close_idx):
+                t = toks[q]
+                if t.kind == "ident" and t.text == "assert" and toks[q + 1].text == "!" and toks[q + 2].text == "(" and (q == 0 or toks[q - 1].text not in (".", "::")):
+                    o = q + 2
+                    c = cur.br[o]
+                    commas = []
+                    j = o + 1
+                    while j < c:
+                        tj = toks[j]
+                        if tj.kind == "punct" and tj.text in ("(", "[", "{"):
+                            j = cur.br[j] + 1; continue
+                        if tj.text == ",":
+                            commas.append(j)
+                        j += 1
+                    add(t.start, toks[q + 1].end, "rt_assert", ("rule", "R15-assert-macro", cur_label, d.line))
+                    if commas:
+                        add(toks[commas[0]].start, toks[c].start, "", ("rule", "R15-assert-macro", cur_label, d.line))
+                    n += 1
+            if n == 0:
+                raise GenError("rule R15 no longer matches in %s" % cur_label)
+            self.count("R15-assert-macro", n)
+            return
         if rule == "R12":
             # `debug_assert_eq!(a, b)` / `assert_eq!(a, b)`  =>  `debug_assert!(a == b)` / `assert!(a == b)`
             # (same check, only the panic message differs; Verus has no model of assert_failed)
@@ -647,6 +751,49 @@ class Extractor:
             lo, hi = cur.item.start, cur.item.end
             for w in [l for l in d.payload if l.strip()]:
                 orig, _, ann = w.strip().partition(" := ")
+                if orig.rstrip().endswith("..") and orig.strip().startswith("|"):
+                    # wildcard form `|a, b| .. := |a: T, b: U| -> (r: V) ensures .. { [proof {..}] .. }`: only the parameter list is the
+                    # anchor; the body is taken from the source WHATEVER it is and checked against the clauses
+                    head = orig.rstrip()[:-2].strip()
+                    rxh = re.compile(r"\s*".join(re.escape(t.text) for t in rl.code_tokens(rl.tokenize(head))))
+                    msh = list(rxh.finditer(src, lo, hi))
+                    if len(msh) != 1:
+                        raise GenError("rule R2c: closure head %r must occur exactly once in %s (found %d)" % (head, cur_label, len(msh)))
+                    pos = msh[0].start()
+                    toks = cur.toks
+                    q = next(i for i, t in enumerate(toks) if t.start >= msh[0].end())
+                    if toks[q].text == "->":
+                        raise GenError("rule R2c: wildcard form needs a closure without return type annotation in %s" % cur_label)
+                    if toks[q].text == "{":
+                        e = cur.br[q]
+                    else:
+                        e = q
+                        while True:
+                            t = toks[e]
+                            if t.kind == "punct" and t.text in ("(", "[", "{"):
+                                e = cur.br[e] + 1; continue
+                            if t.kind == "punct" and t.text in (",", ")", ";", "]", "}"):
+                                e -= 1; break
+                            e += 1
+                    body_src = src[toks[q].start:toks[e].end]
+                    if ann.count("..") < 1 or not ann.rstrip().endswith("}"):
+                        raise GenError("rule R2c: wildcard annotation must contain `..` for the body in %s" % cur_label)
+                    k2 = ann.rindex("..")
+                    ann2 = ann[:k2] + body_src + ann[k2 + 2:]
+                    mh = re.match(r"^([a-z_][a-z0-9_]*)\s*=\s*(\|.*)$", ann2, re.S)
+                    endpos = toks[e].end
+                    if mh:
+                        name, ann2 = mh.group(1), mh.group(2)
+                        st = cur.enclosing_stmt_start(pos)
+                        add(st, st, "let %s = %s;\n" % (name, ann2), ("rule-ins", "R2c-closure-annotation", cur_label, d.line))
+                        add(pos, endpos, name, ("rule", "R2c-closure-annotation", cur_label, d.line))
+                    else:
+                        # the source body stays a source piece: only the head is replaced and the clauses / braces are inserted around it
+                        pre = ann2[:ann2.rindex(body_src)] if body_src in ann2 else None
+                        add(pos, toks[q].start, ann[:k2], ("rule", "R2c-closure-annotation", cur_label, d.line))
+                        add(endpos, endpos, ann[k2 + 2:], ("rule-ins", "R2c-closure-annotation", cur_label, d.line))
+                    self.count("R2c-closure-annotation")
+                    continue
                 # the closure is matched token-wise (layout of the source does not matter)
                 rx = re.compile(r"\s*".join(re.escape(t.text) for t in rl.code_tokens(rl.tokenize(orig))))
                 ms = list(rx.finditer(src, lo, hi))
@@ -754,12 +901,13 @@ class Extractor:
             m = re.match(r"#(\d+)", rest2)
             if m: k = int(m.group(1))
             lo, hi = (cur.item.start, cur.item.end) if cur else (item.start, item.end)
-            pos = lo - 1
-            for _ in range(k):
-                pos = src.find(a, pos + 1, hi)
-                if pos < 0:
-                    raise GenError("rule sub no longer matches in %s: %r" % (cur_label, a))
-            add(pos, pos + len(a), b, ("rule", "R-sub", cur_label, d.line))
+            # the source text is matched up to white space (line breaks / indentation inside the expression may differ)
+            rx = re.compile(r"\s*".join(re.escape(x) for x in a.split()))
+            ms = list(rx.finditer(src, lo, hi))
+            if len(ms) < k:
+                raise GenError("rule sub no longer matches in %s: %r" % (cur_label, a))
+            pos, epos = ms[k - 1].start(), ms[k - 1].end()
+            add(pos, epos, b, ("rule", "R-sub", cur_label, d.line))
             self.count("R-sub")
             return
         if rule == "R2":
@@ -794,6 +942,14 @@ class Extractor:
                     j += 1
             pat_text = src[toks[k + 1].start:toks[j - 1].end]
             expr_text = src[toks[j + 1].start:toks[lp["open_idx"] - 1].end]
+            if len(args) > 6 and args[5] == "was":
+                # `@rule R1 loop ORD iter NAME was "SRC-EXPR" => "MODEL-EXPR"`: the iterated expression is replaced by its model (counted as R-sub)
+                a, rest = _unquote(d.arg.split(" was ", 1)[1].strip())
+                b, _ = _unquote(rest.strip()[2:].strip())
+                if rl.norm_ws(expr_text) != rl.norm_ws(a):
+                    raise GenError("rule R1 no longer matches loop %s of %s: iterates over %r" % (ordstr, cur_label, expr_text))
+                expr_text = b
+                self.count("R-sub")
             inv = "\n".join(x.text() for x in loop_payload.get(ordstr, []))
             handled_loops.add(ordstr)
             head_lo, head_hi = toks[k].start, toks[lp["open_idx"] - 1].end
@@ -810,7 +966,7 @@ class Extractor:
                 raise GenError("rule R3: pattern %r is not a single variable" % pv)
             e = rl.norm_ws(expr_text)
             # read-only variants: `for p in A.iter().rev()` / `for p in A.iter()`: index loop with `let p = &A[k];`
-            mro = re.match(r"^(.+)\.iter\(\)(\.rev\(\))?$", e)
+            mro = re.match(r"^(.+)\.iter\(\)(\.rev\(\))?$", e) or re.match(r"^&\s*(?!mut\b)([A-Za-z_][A-Za-z0-9_.]*)()$", e)
             if mro:
                 arr, desc = mro.group(1), bool(mro.group(2))
                 bind = " let %s = &%s[%s];" % (pv, arr, name)
@@ -870,12 +1026,13 @@ def expand_includes(nodes, depth=0):
     return out
 
 
-def generate(unit, canary=None):
+def generate(unit, canary=None, degrade=()):
     """Expand contracts/<unit>.vc.  Returns (text, piecemap, extractor).
     piecemap: list of (start_char, end_char, tag)."""
     tpl = os.path.join(ROOT, "contracts", unit + ".vc")
     nodes = expand_includes(parse_template(tpl))
     ex = Extractor(unit)
+    ex.force_degrade = set(degrade)
     pieces = []
     for node in nodes:
         if node[0] == "unit":
